@@ -595,8 +595,11 @@ def make_behaviours(prop, tier, rng, wd):
         n = max(4, int(nsim * frac))
         for trunc in (1, 2):
             maxv = 9 if tier == "quick" else 11
+            # C02 is stated for ledgers none of whose confirmed vertices was sealed under the trusted-node exemption:
+            # its behaviours never trust a sealing node (a vertex confirmed while its sealer was trusted would be
+            # judged as if it had been accounted for)
             bs = simulate(wd, shape, n // 2, depth, sd + trunc, trunc=trunc, maxv=maxv,
-                          jump="{}" if rng.random() < 0.5 else "{70}")
+                          jump="{}" if rng.random() < 0.5 else "{70}", toggle=0 if prop == "C02" else 2)
             for ops in bs:
                 res.append((shape, trunc, ops, "simulate:%s" % shape))
     for fam in spec["fams"]:
